@@ -11,7 +11,14 @@
    concrete failing history, which is then shrunk.
 4. large structured histories (`G` op lines, 10^4 .. 10^6 members per type): size-/count-dependent
    behaviour (thresholds, amortised clean-ups).  Harness, compiled model and this module synthesize the same
-   history from 13 parameters (GSpec); outputs are running digests; the oracle is the same set-based one.
+   history from 13 (+2) parameters (GSpec); outputs are running digests; the oracle is the same set-based one.
+5. the ID ALPHABET dimension (`alias_*`): member ids, relation ids and lookup keys that collide under any hashing / masking /
+   truncation / abs() of an id (x, x ± 2^k, -x, 2^k - x, neighbours; k = 8 .. 62), same type and across types, in every
+   release order (first id released before / still held when / never followed by its colliding partner): exhaustive small
+   histories, random histories, and generated histories whose members j, j+am, .. differ by 2^ak.  Histogram
+   `alias:<alphabet class>|<release order>|<outcome>`.
+6. state census (clang AST): every data member of the manager classes and every function touching one ->
+   Generated/C11Layout.lean, tied to the model's state by `members_database_state_is_modelled`.
 """
 import os
 import re
@@ -480,12 +487,13 @@ def dg_step(h, x):
 
 class GSpec:
     """parameters of one generated history (see the header of lean/Driver/C11.lean)"""
-    FIELDS = ['shape', 'n', 'k', 'ro', 'sg', 'st', 'kd', 'miss', 'dup', 'extra', 'ni', 'q', 'seed']
+    FIELDS = ['shape', 'n', 'k', 'ro', 'sg', 'st', 'kd', 'miss', 'dup', 'extra', 'ni', 'q', 'seed', 'ak', 'am']
 
     def __init__(self, variant='nwr', rm=11, mm=255, cb=True, wr=64, **kw):
         self.variant, self.rm, self.mm, self.cb, self.wr = variant, rm, mm, cb, wr
         self.shape, self.n, self.k, self.ro, self.sg, self.st, self.kd = 0, 1, 1, 0, 0, 2, 0
         self.miss, self.dup, self.extra, self.ni, self.q, self.seed = 0, 0, 0, 0, 0, 1
+        self.ak, self.am = 0, 1          # id alphabet: members j and j + am differ by 2^ak (0: dense ids)
         for k, v in kw.items():
             setattr(self, k, v)
 
@@ -498,11 +506,12 @@ class GSpec:
 
     def line(self, maxbuf, fixed):
         return 'G %s %d %d %d %d %d %d | %s | E' % (self.variant, self.rm, self.mm, 1 if self.cb else 0, maxbuf, self.wr, fixed,
-                                                  ' '.join(str(getattr(self, f)) for f in self.FIELDS))
+                                                  ' '.join(str(getattr(self, f)) for f in (self.FIELDS if self.ak else self.FIELDS[:13])))
 
     def label(self):
-        return '%s k=%d n=%d %s ids, relations %s, kinds=%s%s%s%s' % (
-            SHAPES[self.shape], self.k, self.n, SIGNS[self.sg], ORDERS[self.ro], ['w', 'nwr', 'n', 'r'][self.kd],
+        return '%s k=%d n=%d %s ids%s, relations %s, kinds=%s%s%s%s' % (
+            SHAPES[self.shape], self.k, self.n, SIGNS[self.sg],
+            ' (members j and j+%d differ by 2^%d)' % (self.am, self.ak) if self.ak else '', ORDERS[self.ro], ['w', 'nwr', 'n', 'r'][self.kd],
             ', member j never arrives if j mod %d = %d' % (self.miss, self.miss - 1) if self.miss else '',
             ', relation i repeats its first member if i mod %d = 0' % self.dup if self.dup else '',
             ', member mask %#x' % self.mm if self.mm != 255 else '')
@@ -512,7 +521,11 @@ class GSpec:
         return 'w' if self.kd == 0 else 'nwr'[j % 3] if self.kd == 1 else 'n' if self.kd == 2 else 'r'
 
     def mag(self, j):
-        return 10 + j * self.st
+        return 10 + j * self.st if self.ak == 0 else 10 + (j % self.am) * self.st + (j // self.am) * (1 << self.ak)
+
+    def valid(self):
+        return self.n > 0 and self.k > 0 and self.am > 0 and self.ak <= 62 and (
+            self.ak == 0 or ((self.n - 1) // self.am < (1 << (63 - self.ak)) and 10 + self.am * self.st + 1 < (1 << self.ak)))
 
     def neg(self, j):
         return self.sg == 1 or (self.sg == 2 and j % 3 == 0) or (self.sg == 3 and j < 2)
@@ -679,6 +692,7 @@ class Summary:
         self.nrel = len(h.rels)
         self.nobj = sum(1 for o in h.ops if o[0] == 'O')
         self.nontrivial = bool(e.interesting) and self.nobj > 0
+        self.profile = alias_profile(h, e) if self.nobj <= 200 else None      # (alphabet class, release order) of colliding ids
 
 
 def gen_monitor(sm, got):
@@ -713,7 +727,7 @@ def size_class(n):
     return '<1k' if n < 1000 else '1k-10k' if n < 10000 else '10k-20k' if n < 20000 else '20k-50k' if n < 50000 else '50k-200k' if n < 200000 else '>=200k'
 
 
-def big_specs(rng, quick, with_lookups):
+def big_specs(rng, quick, with_lookups, arng=None):
     """(tiny, large) generated histories.  Every run has the fixed core (each shape once, sizes beyond 10 000 / 20 000 /
     40 000 removals in one members database, all id sign classes, all relation orders) plus cases drawn from the seed."""
     q = 37 if with_lookups else 0
@@ -754,16 +768,50 @@ def big_specs(rng, quick, with_lookups):
     if not quick:
         extra += [mk(shape=0, n=330000, k=3, ro=2, sg=2, st=2), mk(shape=3, n=1000000, k=4, ro=2, sg=2, st=2, kd=1, miss=13),
                   mk(shape=2, n=250000, k=4, ro=1, sg=1, st=1, dup=3), mk(shape=4, n=500000, k=1, ro=0, sg=2, st=2, variant='w')]
-    return tiny, core + extra
+    a_tiny, a_large = alias_specs(arng, quick, q) if arng is not None else ([], [])
+    return tiny + a_tiny, core + extra + a_large
 
 
-def big_pass(ctx, hbin, maxbuf, fixed, f7_present, habin=None, asan_env=None):
+def alias_specs(arng, quick, q):
+    """generated histories over the ID ALPHABET {x, x + 2^ak, x + 2*2^ak, ..} (own random stream): the members j, j + am,
+    j + 2am, .. collide modulo 2^ak; the shape decides the release order (share / shareadj / hub: a member is released when
+    it arrives, before its colliding partner arrives; pairs / huge: it is still held; window / random: both)"""
+    mk = lambda **kw: GSpec(q=q, seed=1 + arng.below(1 << 40), **kw)
+    tiny = []
+    for ak in ALIAS_KS:
+        for t in range(6 if quick else 60):
+            am = arng.choice([1, 2, 3, 5, 8, 13])
+            st = 1 + arng.below(3)
+            layers = 2 + arng.below(3)
+            n = am * layers - (arng.below(am) if arng.chance(1, 3) else 0)
+            variant = arng.choice(['nwr', 'nwr', 'nwr', 'w', 'mp', 'nw', 'wr', 'r', 'n'])
+            kd = arng.choice({'nwr': [0, 1, 1, 2, 3], 'w': [0], 'mp': [0], 'nw': [0, 2, 1], 'wr': [0, 3, 1], 'r': [3], 'n': [2]}[variant])
+            g = mk(variant=variant, rm=arng.choice([11, 15, 15]), mm=arng.choice([255, 255, 255, 0xFE, 0x7F]), cb=arng.chance(2, 3),
+                   wr=arng.choice([0, 64]), shape=[0, 1, 2, 3, 4, 5, 6, 0, 2, 4][t % 10] if not quick else arng.choice([0, 0, 1, 2, 3, 4, 4, 5, 6]),
+                   n=max(2, n), k=1 + arng.below(3), ro=arng.below(3), sg=arng.below(4), st=st, kd=kd, miss=arng.choice([0, 0, 0, 2, 5]),
+                   dup=arng.choice([0, 0, 1, 3]), extra=arng.choice([0, 1, 4]), ni=arng.choice([0, 0, 3]), ak=ak, am=am)
+            if g.valid():
+                tiny.append(g)
+    large = [mk(shape=0, n=20000, k=2, ro=0, sg=0, st=2, extra=5, ak=32, am=5000),
+             mk(shape=2, n=24000, k=3, ro=2, sg=1, st=1, ak=20, am=8000, miss=97),
+             mk(shape=4, n=20000, k=1, ro=1, sg=2, st=2, ak=40, am=10000, kd=1),
+             mk(shape=1, n=20000, k=2, ro=2, sg=0, st=2, extra=3, ak=8, am=100)]
+    if not quick:
+        large += [mk(shape=6, n=30000, k=7, ro=0, sg=2, st=2, ak=62, am=15000), mk(shape=5, n=40000, k=3, ro=1, sg=3, st=2, ak=21, am=10000, dup=5),
+                  mk(shape=0, n=200000, k=3, ro=2, sg=0, st=2, ak=33, am=50000, kd=1), mk(shape=3, n=60000, k=3, ro=0, sg=2, st=2, ak=16, am=20000),
+                  mk(shape=0, n=60000, k=2, ro=1, sg=1, st=1, ak=24, am=3), mk(shape=2, n=50000, k=4, ro=0, sg=0, st=3, ak=48, am=1600),
+                  mk(shape=4, n=40000, k=1, ro=2, sg=0, st=2, ak=31, am=20000, variant='w')]
+    assert all(g.valid() for g in large)
+    return tiny, large
+
+
+def big_pass(ctx, hbin, maxbuf, fixed, f7_present, habin=None, asan_env=None, arng=None):
     """large structured histories: implementation vs set-based oracle (digests), implementation vs compiled model;
     a failing history is reduced (smaller n with the same parameters) and re-run in the one-line-per-object
     format so that the ordinary monitors name the object and the relation"""
     quick = ctx.tier == 'quick'
     t0 = time.time()
-    tiny, large = big_specs(ctx.rng, quick, with_lookups=not f7_present)
+    tiny, large = big_specs(ctx.rng, quick, with_lookups=not f7_present, arng=arng)
     specs = tiny + large
     lines = [g.line(maxbuf, fixed) for g in specs]
     text = '\n'.join(lines) + '\n'
@@ -861,13 +909,16 @@ def big_pass(ctx, hbin, maxbuf, fixed, f7_present, habin=None, asan_env=None):
         bad = gen_monitor(sm, got)
         removed = max(sm.counts[k][2] for k in KINDS)
         outcome = 'ok' if not bad else 'violation'
+        alias = '|ids-collide-mod-2^%d' % g.ak if g.ak else ''
+        for cls, order in (sm.profile or []):
+            ctx.count('alias:%s|%s|%s' % (cls, order, outcome))
         if big:
-            ctx.count('big:%s|removals-in-one-db=%s|ids=%s|%s' % (SHAPES[g.shape], size_class(removed), SIGNS[g.sg], outcome))
+            ctx.count('big:%s|removals-in-one-db=%s|ids=%s%s|%s' % (SHAPES[g.shape], size_class(removed), SIGNS[g.sg], alias, outcome))
             ctx.extra['big_histories'].append({'op': l, 'what': g.label(), 'relations': sm.nrel, 'objects': sm.nobj, 'completed': sm.n_completed,
                                                'incomplete': sm.n_incomplete, 'members_db_removed': {k: sm.counts[k][2] for k in KINDS},
                                                'outcome': outcome})
         else:
-            ctx.count('small-generated:%s|ids=%s|%s' % (SHAPES[g.shape], SIGNS[g.sg], outcome))
+            ctx.count('small-generated:%s|ids=%s%s|%s' % (SHAPES[g.shape], SIGNS[g.sg], '|colliding' if g.ak else '', outcome))
         ctx.note_case(l, nontrivial=sm.nontrivial)
         new_keys = [key for key, _ in bad if key not in seen_keys]
         if not new_keys or len(seen_keys) >= 6:
@@ -897,7 +948,8 @@ def big_pass(ctx, hbin, maxbuf, fixed, f7_present, habin=None, asan_env=None):
                           {'kind': 'broken-correspondence', 'stream': 'c11-generated-model-vs-impl', 'first': [d[:2] for d in dis[:3]]}, found_input=False)
     # the memory side at these sizes: ASan + UBSan build on a few of the large histories (same digests expected)
     if habin and not [v for v in ctx.violations if v.key != F7_KEY]:
-        idx = [i for i, g in enumerate(specs) if g.n >= 1000][:3 if quick else 8]
+        idx = [i for i, g in enumerate(specs) if g.n >= 1000 and not g.ak][:3 if quick else 8]
+        idx += [i for i, g in enumerate(specs) if g.n >= 1000 and g.ak][:1 if quick else 4]
         try:
             rca, oa, sea = ctx.run_lines([habin], '\n'.join(lines[i] for i in idx) + '\n', env=asan_env, timeout=(300 if quick else 3600))
         except subprocess.TimeoutExpired:
@@ -910,6 +962,180 @@ def big_pass(ctx, hbin, maxbuf, fixed, f7_present, habin=None, asan_env=None):
                           % ('dies (rc=%d)' % rca if rca != 0 else 'gives different results', specs[idx[j]].label(), sig.group(1)[:200] if sig else sea[-300:]),
                           {'kind': 'counterexample', 'op': lines[idx[j]], 'stderr': sea[-2000:]})
     ctx.extra['big_histories_wall_s'] = round(time.time() - t0, 1)
+
+
+# ------------------------------------------------------------------------------------------
+# the ID ALPHABET dimension: ids that collide under any hashing / masking / truncation / abs() of an id
+# (x and x ± 2^k, -x, 2^k - x, with their neighbours), of the same member type and across types, as member ids,
+# relation ids and lookup keys; every release order of two colliding ids.  The property quantifies over ANY ids: find()
+# and add() may depend on id EQUALITY only (Props/C11.lean `removal_of_other_id_irrelevant`).
+
+ALIAS_KS = [8, 16, 20, 21, 24, 31, 32, 33, 40, 48, 62]
+ID_LIM = 1 << 63          # object_id_type is int64_t; |id| < 2^63 (INT64_MIN is left out: the managers' users call abs())
+
+
+def alias_ids(k, x):
+    """the id alphabet of (k, x)"""
+    P = 1 << k
+    ids = [x, x + P, x - P, -x, P - x, -x - P, x + 1, x - 1, x + P + 1, x + P - 1, x - P + 1, -x - 1, x + 2 * P, x - 2 * P,
+           x + 3 * P, P, -P, ID_LIM - 1 - x, -(ID_LIM - 1 - x)]
+    return [i for i in dict.fromkeys(ids) if i != 0 and -ID_LIM < i < ID_LIM]
+
+
+def aliasing(a, b):
+    """name of the way two different ids collide ('' if they do not): equal magnitude, or equal low k bits of the
+    two's complement representation for a k of ALIAS_KS (the largest such k names the class)"""
+    if a == b:
+        return ''
+    if a == -b:
+        return 'neg'
+    d = (a - b) & M64
+    best = 0
+    for k in ALIAS_KS:
+        if d % (1 << k) == 0:
+            best = k
+    if best:
+        return '2^%d%s' % (best, '' if (a < 0) == (b < 0) else '/sign')
+    d = (abs(a) - abs(b))
+    for k in ALIAS_KS:
+        if d % (1 << k) == 0:
+            best = k
+    return 'abs2^%d' % best if best else ''
+
+
+def alias_profile(h, e):
+    """[(alphabet class, release order)] for every pair of colliding WANTED member ids of the history (the two ids of the
+    same member type, or of different types), read off the oracle's expectations:
+      released-before : the last relation needing the first id was completed before the second id arrived
+      held-during     : some relation still needed the first id when the second arrived
+      second-missing / first-missing / both-missing : that id never arrives"""
+    wanted_ids = sorted({w for i in e.interesting for w in e.wanted[i]}, key=lambda w: stream_key(*w))
+    if len(wanted_ids) < 2 or len(wanted_ids) > 40:
+        return []
+    arrive = {}
+    done_at = {}
+    for idx, (op, ex) in enumerate(zip(h.ops, e.per_op)):
+        if ex[0] == 'O' and not ex[3]:
+            arrive.setdefault((op[1], op[2]), idx)
+            for i in ex[1]:
+                done_at[i] = idx
+    needed_by = {}
+    for i in e.interesting:
+        for w in e.wanted[i]:
+            needed_by.setdefault(w, set()).add(i)
+    out = []
+    for ai, a in enumerate(wanted_ids):
+        for b in wanted_ids[ai + 1:]:
+            cls = aliasing(a[1], b[1])
+            if not cls:
+                continue
+            cls += ':same-type' if a[0] == b[0] else ':cross-type'
+            ta, tb = arrive.get(a), arrive.get(b)
+            if ta is None and tb is None:
+                order = 'both-missing'
+            elif tb is None:
+                order = 'second-missing'
+            elif ta is None:
+                order = 'first-missing'
+            else:
+                if ta > tb:
+                    a, b, ta, tb = b, a, tb, ta
+                rel_a = max((done_at.get(i, 1 << 60) for i in needed_by[a]), default=0)
+                order = 'released-before' if rel_a < tb else 'held-during'
+            out.append((cls, order))
+    return out
+
+
+def alias_exhaustive(k, x, tmpl, t, t2, rid_base):
+    """ALL histories with two relations of one or two members each over a four-letter alphabet of colliding ids
+    (template `tmpl`), x every presence pattern "all arrive / exactly one never arrives", relation ids colliding too;
+    lookups of every letter and of a colliding id nobody wants after every object and after the run"""
+    P = 1 << k
+    letters = [[(t, x), (t, x + P), (t, x + 1), (t, x - P)],
+               [(t, x), (t, x + P), (t, -x), (t2, x + P)],
+               [(t, -x), (t, P - x), (t, -x - P), (t, x)],
+               [(t, x), (t, x + P), (t, x + 2 * P if k < 62 else x + P - 1), (t2, x)]][tmpl]
+    letters = [l for l in letters if -ID_LIM < l[1] < ID_LIM and l[1] != 0]
+    stranger = (t, x + 3 * P if k < 61 else x + P + 1)
+    mlists = [[a] for a in letters] + [[a, b] for i, a in enumerate(letters) for b in letters[i:]]
+    rids = [rid_base, rid_base + P]
+    out = []
+    for m1 in mlists:
+        for m2 in mlists:
+            rels = [(rids[1], 0, list(m1)), (rids[0], 1, list(m2))]
+            for missing in [None] + letters:
+                objs = sorted({l for l in letters if l != missing}, key=lambda o: stream_key(*o))
+                ops = []
+                for o in objs:
+                    ops.append(('O', o[0], o[1], (abs(o[1]) * 7 + KORD[o[0]]) % 100000))
+                    ops.append(('Q', 'n', 0))
+                    for l in letters:
+                        ops.append(('Q', l[0], l[1]))
+                ops.append(('Q',) + stranger)
+                out.append(Hist('nwr', 15, 255, True, 0, rels, ops))
+    return out
+
+
+def gen_alias_history(rng, big=False):
+    """a random history as `gen_history`, with member ids, relation ids, unrelated objects and lookup keys all drawn from
+    the alphabet of one or two (k, x)"""
+    variant = rng.choice(VARIANTS)
+    rm = 15 if rng.chance(2, 3) else 1 + rng.below(15)
+    mm = 255 if rng.chance(2, 3) else rng.choice([0xFE, 0x7F, 0xAA, 0x55, rng.below(256)])
+    cb = rng.chance(2, 3)
+    wr = rng.choice([0, 0, 8, 64, 200000])
+    ks = [rng.choice(ALIAS_KS)] + ([rng.choice(ALIAS_KS)] if rng.chance(1, 3) else [])
+    x = rng.choice([1, 2, 3, 5, 7, 10, 255, 4097, 1 + rng.below(1000)])
+    pool = []
+    for k in ks:
+        pool += alias_ids(k, x)
+    pool = list(dict.fromkeys(pool))
+    rng.shuffle(pool)
+    pool = pool[:4 + rng.below(6 if not big else 14)]
+    rpool = alias_ids(rng.choice(ks), rng.choice([1, x, 9]))
+    rpool = [i for i in rpool if i > 0] if rng.chance(1, 2) else rpool
+    rng.shuffle(rpool)
+    nrel = 1 + rng.below(min(len(rpool), 6 if not big else 12))
+    kinds_w = rng.choice(['nwr', 'www', 'nnn', 'rrr', 'wwn', 'nnwr', 'rrwn'])
+    if variant in ('w', 'mp') and rng.chance(2, 3):
+        kinds_w = 'wwwwn'
+    rels = []
+    for j in range(nrel):
+        nm = rng.choice([1, 1, 1, 2, 2, 3, 4])
+        ms = []
+        for _ in range(nm):
+            if ms and rng.chance(1, 8):
+                ms.append(rng.choice(ms))
+            else:
+                ms.append((rng.choice(kinds_w), rng.choice(pool)))
+        rels.append((rpool[j], rng.below(1000), ms))
+    p_inc = rng.choice([100, 100, 100, 85, 60])
+    objs = set()
+    for _, _, ms in rels:
+        for m in ms:
+            if rng.below(100) < p_inc:
+                objs.add(m)
+    full = []
+    for k in ks:
+        full += alias_ids(k, x)
+    for _ in range(rng.below(5)):
+        objs.add((rng.choice(KINDS), rng.choice(full)))       # unrelated objects whose ids collide with tracked ones
+    objs = sorted(objs, key=lambda o: stream_key(*o))
+    universe = sorted({m for _, _, ms in rels for m in ms} | set(objs))
+    ops = []
+    for o in objs:
+        ops.append(('O', o[0], o[1], rng.below(100000)))
+        ops.append(('Q', 'n', 0))
+        if rng.chance(1, 10):
+            ops.append(('F',))
+        for _ in range(rng.choice([0, 1, 2])):
+            q = rng.choice(universe)
+            ops.append(('Q', rng.choice([q[0], q[0], rng.choice(KINDS)]), rng.choice([q[1], q[1], rng.choice(full)])))
+    for q in universe:
+        ops.append(('Q', q[0], q[1]))
+    for _ in range(3):
+        ops.append(('Q', rng.choice(KINDS), rng.choice(full)))
+    return Hist(variant, rm, mm, cb, wr, rels, ops)
 
 
 # ------------------------------------------------------------------------------------------
@@ -994,17 +1220,170 @@ def extract_layout(ctx):
     for u in uses:
         if u not in seen:
             seen.append(u)
-    lines = ['/-', 'GENERATED by tools/props/c11.py from include/osmium/relations/members_database.hpp — do not edit.',
-             'Every use of `m_elements`: (member function, operation, does the operation change the LAYOUT of the vector — its size or the',
-             'position of an entry?).  Everything that is not known to keep the layout counts as changing it.', '-/',
+    fields, fuses, err = state_census()
+    if err:
+        ctx.violation('state-census-failed', 'cannot read the data members of the relation manager classes off the clang AST: %s' % err[-400:],
+                      {'kind': 'check-error'}, found_input=False)
+    lines = ['/-', 'GENERATED by tools/props/c11.py from include/osmium/relations/{members_database,relations_database,relations_manager}.hpp — do not edit.',
+             'Part 1 (`uses`, regex census): every use of `m_elements` in members_database.hpp: (member function, operation, does the',
+             'operation change the LAYOUT of the vector — its size or the position of an entry?).  Everything that is not known to keep the',
+             'layout counts as changing it.',
+             'Part 2 (`fields`, `fieldUses`, clang typed AST, asserts compiled in): EVERY data member of the classes MembersDatabaseCommon (+ nested),',
+             'MembersDatabase, RelationsDatabase (+ nested), RelationHandle, RelationsManagerBase, RelationsManager, SecondPassHandler, and for',
+             'every member function of these classes the data members it reads or writes (a member access that resolves to one of the',
+             'listed fields; in dependent contexts: by name).', '-/',
              'namespace Osmium.Generated.C11Layout', '',
              'structure Use where', '  fn : String', '  op : String', '  changesLayout : Bool', '  deriving Repr, DecidableEq', '',
              'def uses : List Use := [']
     lines += [',\n'.join('  ⟨"%s", "%s", %s⟩' % (fn, op, 'false' if op in LAYOUT_KEEPING else 'true') for fn, op in seen)]
+    lines += [']', '',
+              'structure Field where', '  cls : String', '  name : String', '  type : String', '  deriving Repr, DecidableEq', '',
+              'def fields : List Field := [']
+    lines += [',\n'.join('  ⟨"%s", "%s", "%s"⟩' % f for f in fields)]
+    lines += [']', '',
+              'structure FieldUse where', '  cls : String', '  fn : String', '  touches : List String', '  deriving Repr, DecidableEq', '',
+              'def fieldUses : List FieldUse := [']
+    lines += [',\n'.join('  ⟨"%s", "%s", [%s]⟩' % (c, f, ', '.join('"%s"' % x for x in us)) for c, f, us in fuses)]
     lines += [']', '', 'end Osmium.Generated.C11Layout', '']
     changed = vlib.write_if_changed(os.path.join(vlib.LEAN, 'Osmium', 'Generated', 'C11Layout.lean'), '\n'.join(lines))
     ctx.extra['m_elements_uses'] = ['%s: %s%s' % (fn, op, '' if op in LAYOUT_KEEPING else ' (changes the layout)') for fn, op in seen]
+    ctx.extra['state_census'] = {'data_members': ['%s::%s : %s' % f for f in fields], 'functions_touching_data_members': len(fuses)}
     return seen
+
+
+CENSUS_HEADERS = ['osmium/relations/members_database.hpp', 'osmium/relations/relations_database.hpp', 'osmium/relations/relations_manager.hpp',
+                  'osmium/relations/manager_util.hpp']
+CENSUS_CLASSES = ['MembersDatabaseCommon', 'MembersDatabase', 'RelationsDatabase', 'RelationHandle', 'RelationsManagerBase', 'RelationsManager',
+                  'SecondPassHandler']
+_FUN = ('CXXMethodDecl', 'CXXConstructorDecl', 'CXXDestructorDecl')
+
+
+def state_census():
+    """-> (fields [(class, name, type)], uses [(class, function, [field names])], error or None): the data members of the
+    relation manager classes (nested classes included) and the member functions that touch them, read off clang's typed AST
+    of the CURRENT headers (cached by their hash)"""
+    import hashlib
+    import json
+    inc = os.path.join(vlib.REPO, 'include')
+    h = hashlib.sha256()
+    try:
+        for rel in CENSUS_HEADERS:
+            with open(os.path.join(inc, rel), 'rb') as f:
+                h.update(f.read())
+    except OSError as e:
+        return [], [], str(e)
+    with open(os.path.abspath(__file__), 'rb') as f:
+        h.update(f.read())
+    cache = os.path.join(vlib.BUILD, 'c11_census-%s.json' % h.hexdigest()[:16])
+    if os.path.exists(cache):
+        with open(cache) as f:
+            r = json.load(f)
+        return [tuple(x) for x in r['fields']], [(c, f_, u) for c, f_, u in r['uses']], None
+    work = os.path.join(vlib.BUILD, 'c11_census')
+    os.makedirs(work, exist_ok=True)
+    tu = os.path.join(work, 'tu-%d.cpp' % os.getpid())
+    with open(tu, 'w') as f:
+        f.write('#include <osmium/relations/relations_manager.hpp>\n')
+    try:
+        rc, so, se = vlib.sh(['clang++-14', '-std=gnu++17', '-fsyntax-only', '-I' + inc, '-D' + vlib.GUARD, '-Xclang', '-ast-dump=json',
+                              '-Xclang', '-ast-dump-filter=osmium::relations', tu], timeout=300)
+    finally:
+        os.remove(tu)
+    if rc != 0:
+        return [], [], 'clang failed: ' + se[-600:]
+    dec = json.JSONDecoder()
+    roots, i = [], 0
+    while i < len(so):
+        while i < len(so) and so[i].isspace():
+            i += 1
+        if i >= len(so):
+            break
+        o, i = dec.raw_decode(so, i)
+        roots.append(o)
+    classes = {}          # qualified name -> {'fields': [(name, type, id)], 'methods': [(name, node)], 'id': ..}
+    by_id = {}
+
+    def visit(n, path):
+        k = n.get('kind')
+        if k == 'NamespaceDecl':
+            for c in n.get('inner', []):
+                visit(c, path)
+        elif k == 'ClassTemplateDecl':
+            for c in n.get('inner', []):
+                if c.get('kind') == 'CXXRecordDecl':
+                    visit(c, path)
+                    break
+        elif k == 'CXXRecordDecl' and n.get('name') and n.get('completeDefinition'):
+            if not path and n['name'] not in CENSUS_CLASSES:
+                return
+            q = '::'.join(path + [n['name']])
+            rec = classes.setdefault(q, {'fields': [], 'methods': []})
+            by_id[n['id']] = q
+            for c in n.get('inner', []):
+                ck = c.get('kind')
+                if ck == 'FieldDecl':
+                    rec['fields'].append((c.get('name', '<unnamed>'), c['type']['qualType'], c['id']))
+                elif ck in _FUN and not c.get('isImplicit'):
+                    by_id[c['id']] = q
+                    rec['methods'].append((c['name'], c))
+                elif ck == 'FunctionTemplateDecl':
+                    for d in c.get('inner', []):
+                        if d.get('kind') in _FUN:
+                            by_id[d['id']] = q
+                            rec['methods'].append((d['name'], d))
+                            break
+                elif ck in ('CXXRecordDecl', 'ClassTemplateDecl'):
+                    visit(c, path + [n['name']])
+                elif ck == 'VarDecl':
+                    rec['fields'].append((c.get('name', '<unnamed>'), 'static ' + c['type']['qualType'], c['id']))
+        elif k in _FUN and n.get('parentDeclContextId') in by_id:          # out-of-line definition
+            classes[by_id[n['parentDeclContextId']]]['methods'].append((n['name'], n))
+        elif k == 'FunctionTemplateDecl':
+            for d in n.get('inner', []):
+                if d.get('kind') in _FUN and d.get('parentDeclContextId') in by_id:
+                    classes[by_id[d['parentDeclContextId']]]['methods'].append((d['name'], d))
+
+    for r0 in roots:
+        visit(r0, [])
+    field_ids = {fid: nm for rec in classes.values() for nm, _, fid in rec['fields']}
+    field_names = set(field_ids.values())
+
+    def collect(n, used):
+        if isinstance(n, dict):
+            k = n.get('kind')
+            if k == 'MemberExpr':
+                if n.get('referencedMemberDecl') in field_ids:
+                    used.add(field_ids[n['referencedMemberDecl']])
+            elif k == 'CXXDependentScopeMemberExpr':
+                if n.get('member') in field_names:
+                    used.add(n['member'])
+            elif k == 'DeclRefExpr':
+                d = n.get('referencedDecl') or {}
+                if d.get('id') in field_ids:
+                    used.add(field_ids[d['id']])
+            elif k == 'CXXCtorInitializer':
+                d = n.get('anyInit') or {}
+                if d.get('id') in field_ids:
+                    used.add(field_ids[d['id']])
+            for v in n.get('inner', []):
+                collect(v, used)
+
+    fields, uses = [], []
+    for q, rec in classes.items():
+        for nm, ty, _ in rec['fields']:
+            fields.append((q, nm, ty.replace('"', "'")))
+        merged = {}
+        for nm, node in rec['methods']:
+            u = merged.setdefault(nm, set())
+            collect(node, u)
+        for nm, u in merged.items():
+            if u:
+                uses.append((q, nm if nm.startswith('operator') else nm.split('<')[0], sorted(u)))
+    tmp = cache + '.tmp%d' % os.getpid()
+    with open(tmp, 'w') as f:
+        json.dump({'fields': fields, 'uses': uses}, f)
+    os.rename(tmp, cache)
+    return fields, uses, None
 
 
 def _in_parens(src, a, b):
@@ -1035,7 +1414,13 @@ def shrink(h, fails, budget=150):
                 cur, changed = c, True
         j = len(cur.ops) - 1
         while j >= 0 and n < budget:
+            fence = lambda o: o[0] == 'Q' and o[1] == 'n' and o[2] == 0
+            if fence(cur.ops[j]) and j > 0 and cur.ops[j - 1][0] == 'O':
+                j -= 1          # the fence after an object stays with it (the monitors separate the events of two objects by it)
+                continue
             c = cur.copy()
+            if c.ops[j][0] == 'O' and j + 1 < len(c.ops) and fence(c.ops[j + 1]):
+                del c.ops[j + 1]
             del c.ops[j]
             n += 1
             if fails(c):
@@ -1362,6 +1747,67 @@ def run(ctx):
     report(subd, *res, hdbin, 'debug')
     ctx.count('debug-build-histories', len(subd))
 
+    # ---- the ID ALPHABET dimension: colliding ids (x, x ± 2^k, -x, 2^k - x, neighbours) as member ids of one type and
+    # across types, relation ids and lookup keys; own random stream so that the streams above do not depend on it
+    arng = vlib.SplitMix64(ctx.seed * 7919 + 0xA11A5)
+    t_al = time.time()
+    n_exh = n_rand = n_asan = 0
+    types = ['n', 'w', 'r']
+    viol_before = len(ctx.violations)
+    for ki, k in enumerate(ALIAS_KS):       # one chunk per k (bounds the memory of the thorough tier)
+        if len(ctx.violations) > viol_before + 3:
+            break                           # enough symptoms from this stage
+        # quick: one (template, type, x) per k, rotating with the seed; thorough: every template x type
+        combos = ([((ctx.seed + ki) % 4, types[(ctx.seed + ki) % 3], arng.choice([1, 5, 7, 255]))] if quick else
+                  [(tm, t, arng.choice([1, 2, 5, 255, 4097])) for tm in range(4) for t in types])
+        ahists = []
+        for tm, t, x in combos:
+            if x + 1 >= (1 << k):
+                x = 5
+            ahists += alias_exhaustive(k, x, tm, t, types[(types.index(t) + 1 + arng.below(2)) % 3], arng.choice([1, x, 1000]))
+        ne = len(ahists)
+        nr = 230 if quick else 13000
+        ahists += [gen_alias_history(arng, big=(j % 8 == 0)) for j in range(nr)]
+        n_exh += ne
+        n_rand += nr
+        res = evaluate(ahists, hbin, stream='c11-alias-model-vs-impl')
+        exps_a, hints_a, lines_a, rc_a, impl_a, se_a, model_a = res
+        if not report(ahists, *res, hbin, 'plain-ids'):
+            break
+        for h, e, hi, l, o in zip(ahists, exps_a, hints_a, lines_a, impl_a):
+            outcome = 'violation' if monitor(h, e, o, hi) else 'ok'
+            prof = alias_profile(h, e)
+            for cls, order in prof:
+                ctx.count('alias:%s|%s|%s' % (cls, order, outcome))
+            ctx.count('alias-histories:%s' % ('with-colliding-wanted-ids' if prof else 'no-colliding-pair'))
+            ctx.note_case(l, nontrivial=bool(e.interesting))
+        if model_a is not None:
+            dis = ctx.diff_streams('c11-alias-model-vs-impl', lines_a, impl_a, model_a)
+            if dis and not [v for v in ctx.violations if v.key != F7_KEY]:
+                i, op, a, b2 = dis[0]
+                ctx.violation('correspondence-ids:' + vlib.hashlib.sha256(op.encode()).hexdigest()[:10],
+                              'model and implementation disagree on %d histories over colliding ids and no property monitor fired; first: `%s` impl=`%s` model=`%s`'
+                              % (len(dis), op[:300], a[:300], b2[:300]),
+                              {'kind': 'broken-correspondence', 'stream': 'c11-alias-model-vs-impl', 'first': dis[:3]}, found_input=False)
+        # the memory side: ASan + UBSan build on a sample
+        na = 30 if quick else 500
+        suba = []
+        for h in ahists[ne:ne + na] + ahists[:ne:max(1, ne // na)]:
+            e = oracle(h)
+            hi = hints_of(h, e)
+            suba.append(h.copy(ops=[op for op, x in zip(h.ops, hi) if not (f7_present and op[0] == 'Q' and x == 'x')]))
+        res = evaluate(suba, habin, env=asan_env, with_model=False)
+        report(suba, *res, habin, 'asan-ids', env=asan_env)
+        n_asan += len(suba)
+        del ahists, res, exps_a, hints_a, lines_a, impl_a, model_a
+    ctx.count('asan-histories-colliding-ids', n_asan)
+    ctx.count('alias-histories-exhaustive', n_exh)
+    ctx.count('alias-histories-random', n_rand)
+    ctx.extra['id_alphabet'] = {'k': ALIAS_KS, 'exhaustive_histories': n_exh, 'random_histories': n_rand, 'wall_s': round(time.time() - t_al, 1),
+                                'what': 'ids x, x±2^k, -x, 2^k-x, -x-2^k, x±1, x+2^k±1, x±2*2^k, x+3*2^k, ±2^k, ±(2^63-1-x) as member ids (same type and across '
+                                        'types), relation ids and lookup keys; exhaustive = every pair of relations with 1..2 members over a 4-letter '
+                                        'alphabet x every presence pattern (all arrive / one never arrives)'}
+
     # ---- one long history: stash garbage collection while members are in use ----------------------
     total_gcs = 0
     ctx.extra['long_history'] = []
@@ -1389,7 +1835,7 @@ def run(ctx):
                               % (j, pa[j] if j < len(pa) else '<end>', pb[j] if j < len(pb) else '<end>'),
                               {'kind': 'broken-correspondence', 'op': lines_l[0][:2000] + ' ...'}, found_input=False)
     # ---- large structured histories (size-/count-dependent behaviour: thresholds, amortised clean-ups) -------------
-    big_pass(ctx, hbin, maxbuf, fixed, f7_present, habin, asan_env)
+    big_pass(ctx, hbin, maxbuf, fixed, f7_present, habin, asan_env, arng=arng)
 
     if total_gcs == 0:
         ctx.violation('long-history-no-gc', 'the long histories did not trigger ItemStash::garbage_collect; the generator must be adapted',
@@ -1401,7 +1847,10 @@ def run(ctx):
         'an interesting relation without any wanted member is never completed by the code and is listed as incomplete (there is no "last member"); the oracle follows the code here',
         'objects of the second pass are represented by (type, id, content); identity with the input object is checked bytewise by the harness',
     ]
-    ctx.assumptions.append('generated histories (G lines): ids 10 + j*st (never 0), relation ids 1..R, member stream in file order by construction; '
+    ctx.assumptions.append('generated histories (G lines): ids 10 + j*st or 10 + (j mod am)*st + (j div am)*2^ak (never 0, |id| < 2^63), relation ids 1..R, member stream in file order by construction; '
                            'the generator is implemented three times (harness, model driver, this module) and cross-checked by a digest of the synthesized history')
     ctx.trusted.append('tools/props/c11.py extract_layout: regex census of the uses of m_elements in members_database.hpp (direct uses of the member only)')
+    ctx.trusted.append('tools/props/c11.py state_census: data members and member accesses of the relation manager classes read off the JSON AST of clang++-14 '
+                       '(FieldDecl / MemberExpr by declaration id, dependent member accesses by name)')
+    ctx.assumptions.append('ids are int64 with |id| < 2^63 (INT64_MIN excluded: abs() of it is undefined); the id alphabet streams use ids up to 2^63 - 2')
     ctx.trusted.append('hand transcription of relations_manager.hpp / members_database.hpp / relations_database.hpp into lean/Osmium/Model/RelMgr.lean, checked by the correspondence streams')
